@@ -14,7 +14,7 @@ def run(ctx, out):
     replies = []
     # abort codes: all 256
     for code in range(256):
-        replies.append([P.intermediate()] * (code % 3) + [P.abort(code)])
+        replies.append([P.intermediate()] * (code % 3 if code % 16 else (19, 20, 21, 40)[code // 16 % 4]) + [P.abort(code)])
     # UIDs: absent / 0..20 bytes, all-zero, 000000-prefixed, zero runs; application lists
     uids = [None, b""]
     for n in range(1, 21):
@@ -36,7 +36,7 @@ def run(ctx, out):
     for uid in uids:
         for subs in ([[]] if rng.random() < 0.7 else sublists):
             tlv = {"uuid": None if uid is None else uid.hex(), "subs": subs}
-            k = rng.randint(0, 3)
+            k = rng.choice([0, 1, 2, 3, rng.randint(0, 3), 19, 20, 21, 64]) if rng.random() < 0.15 else rng.randint(0, 3)
             replies.append([P.intermediate(rng.randrange(256)) for _ in range(k)] + [P.status(result_code=0, tlv=tlv)])
     for subs in sublists[1:] + odd:
         for uid in (None, b"\x01\x02\x03", bytes(10)):
@@ -65,6 +65,6 @@ def run(ctx, out):
             out.oracle_failures.append({"op": o, "observed": res, "expected": seen[key], "key": o[:200], "what": "the same status information was classified differently on another presentation"})
         seen[key] = res
     out.rule = ("read_card against status-information replies: UID absent / empty / 1..20 bytes (random, all-zero, zero runs of every length before the last byte, 000000-prefixed), application lists absent / with / without application ids, "
-                "0..3 preceding intermediate statuses; all 256 abort codes; result must equal the specification (bank iff the first listed application carries an id; otherwise upper-case hex UID, last 14 digits, one leading 000000 dropped; "
+                "0..3 (and in a sample 19, 20, 21, 40, 64) preceding intermediate statuses; all 256 abort codes; result must equal the specification (bank iff the first listed application carries an id; otherwise upper-case hex UID, last 14 digits, one leading 000000 dropped; "
                 "6C => no card; other abort => error) and be identical for identical status data. implementation = model = specification")
     out.samples = [ops[300][:400], {"op": ops[-1][:200], "impl": impl[-1][:300]}]
